@@ -90,6 +90,7 @@ impl RegexMatcher {
         pattern: &str,
         ignore_case: bool,
     ) -> Result<Self, Box<dyn Error>> {
+        super::fold_case_by_character();
         let syntax = match regex_type {
             RegexType::Emacs => *Syntax::emacs(),
             RegexType::Grep => *Syntax::grep(),
